@@ -915,6 +915,10 @@ func vspecCWM(src []byte) int { return vspecCW(src) + 2 + vspecBE16(src, vspecCW
 //@   ensures[C05:sizes] err == nil ==> vdefConnSizes(m)
 //@   modifies m.protoName, m.version, m.connectFlags, m.keepAlive, m.clientID, m.willTopic, m.willMessage, m.username, m.password
 
+// A CONNECT that still has its decoded bytes: the connect flags field is the flags byte of those bytes.
+//@ define vdefFlagsOnWire(m)
+//@   is !m.dirty ==> m.connectFlags == m.dbuf[vspecH(m.dbuf)+vspecCP(m.dbuf[vspecH(m.dbuf):])+1]
+
 //@ func (*ConnectMessage).Decode
 //@   results n, err
 //@   strictslice
@@ -928,6 +932,7 @@ func vspecCWM(src []byte) int { return vspecCW(src) + 2 + vspecBE16(src, vspecCW
 //@   ensures[C11:other] typeis(err, ConnackCode) ==> isErr(err, ErrInvalidProtocolVersion) || isErr(err, ErrIdentifierRejected)
 //@   ensures[C11:level] vspecHdrOK(src, old(Type(m.mtypeflags[0]>>4))) && vspecLPOK(src, vspecH(src), vspecH(src)+vspecVarintVal(src, 1)) && vspecH(src)+2+vspecBE16(src, vspecH(src))+1 < vspecH(src)+vspecVarintVal(src, 1)
 //@        && !(haskey(SupportedVersions, src[vspecH(src)+2+vspecBE16(src, vspecH(src))]) && SupportedVersions[src[vspecH(src)+2+vspecBE16(src, vspecH(src))]] == string(src[vspecH(src)+2:vspecH(src)+2+vspecBE16(src, vspecH(src))])) ==> isErr(err, ErrInvalidProtocolVersion)
+//@   ensures[C09:flags-from-wire] err == nil ==> m.connectFlags == src[vspecH(src)+vspecCP(src[vspecH(src):])+1] && vdefFlagsOnWire(m)
 //@   modifies m.remlen, m.mtypeflags, m.dbuf, m.dirty, m.protoName, m.version, m.connectFlags, m.keepAlive, m.clientID, m.willTopic, m.willMessage, m.username, m.password
 
 // body length of a CONNECT built from the fields of m (0 if the protocol level is unsupported, as msglen does)
@@ -976,6 +981,7 @@ func vspecCWM(src []byte) int { return vspecCW(src) + 2 + vspecBE16(src, vspecCW
 //@   ensures[C03:len] err == nil && old(m.dirty) ==> n == 1+vspecVarintLen(vdefConnBody(m))+vdefConnBody(m) && n <= len(dst) && int(m.remlen) == vdefConnBody(m) && haskey(SupportedVersions, m.version)
 //@   ensures[C03:wire] err == nil && old(m.dirty) ==> dst[0] == m.mtypeflags[0] && Type(m.mtypeflags[0]>>4) == CONNECT && forall(0, vspecVarintLen(int(m.remlen)), func(k int) bool { return int(dst[1+k]) == vspecVarintByte(int(m.remlen), k) })
 //@   ensures[C03:accept] old(m.dirty) && Type(m.mtypeflags[0]>>4) == CONNECT && haskey(SupportedVersions, m.version) && len(dst) >= 5+vdefConnBody(m) ==> err == nil
+//@   ensures[C09:flags-on-wire] err == nil && old(m.dirty) ==> dst[vspecH(dst)+vspecCP(dst[vspecH(dst):])+1] == m.connectFlags && vspecH(dst) == 1+vspecVarintLen(int(m.remlen))
 //@   modifies elems(dst, 0, n), m.remlen, m.dirty
 
 // ---------------------------------------------------------------- constructors and accessors used by the protocol handlers
